@@ -914,6 +914,9 @@ func (s *Server) processPublish(cl *Client, pk packets.Packet) error {
 
 	if pk.Properties.TopicAliasFlag && pk.Properties.TopicAlias > 0 { // [MQTT-3.3.2-11]
 		pk.TopicName = cl.State.TopicAliases.Inbound.Set(pk.Properties.TopicAlias, pk.TopicName)
+		if pk.TopicName == "" {
+			return packets.ErrTopicAliasInvalid // the alias was never bound to a topic on this connection
+		}
 	}
 
 	if pk.FixedHeader.Qos > s.Options.Capabilities.MaximumQos {
